@@ -10,8 +10,8 @@ import tlc
 PROBES = [("probe_logger", "asan", lc.LOGGER_RUNTIME, [])]
 
 MANIFEST = dict(
-    text='TLC proves on the TLA+ design of the logger (producers, FIFO queue, the consumer loop CheckStop/TryPop/Write/Sleep, stop = RequestStop;EnqueueSentinel;Join) for 1-3 producers x 2 lines at enabled or disabled levels with stop() beginning at every point: every accepted line written exactly once, per-producer order, consecutive sequence numbers, disabled levels absent, return value <=> accepted, stop returns only after the last write (and does return); and shows that each named deviation (exit_on_stop_flag, enqueue_return_inverted) violates an invariant. TLC exports the transition cover of the same design at the grain of the consumer\'s park positions; every exported schedule is enforced on the real FileLogger threads (the probe parks the consumer in its sleep / write calls and stop() in its join by symbol interposition, no hook), plus seeded free-running runs with 1-8 producer threads and stop() right after the last submit or in mid-flight. TLC validates every recorded execution (submits with return values, stop, file content) against the C28 monitor.',
-    note='Trusts TLC, the probe (moves data, parses log lines), interposition of clock_nanosleep/write/pthread_join/pthread_create, ASan/UBSan. "Submitted before stop" = the submit call had returned when stop() was called. The FastFlow queue is taken as a linearizable FIFO (C30 checks it).',
+    text='TLC proves on the TLA+ design of the logger (producers, FIFO queue, the consumer loop CheckStop/TryPop/Write/Sleep, stop = RequestStop;EnqueueSentinel;Join) for 1-3 producers x 2 lines at enabled or disabled levels with stop() beginning at every point: every accepted line written exactly once, per-producer order, consecutive sequence numbers, disabled levels absent, return value <=> accepted, stop returns only after the last write (and does return); and shows that each named deviation (exit_on_stop_flag, enqueue_return_inverted) violates an invariant. TLC exports the transition cover of the same design at the grain of the consumer\'s park positions; every exported schedule is enforced on the real FileLogger threads (the probe parks the consumer in its sleep / write calls and stop() in its join by symbol interposition; a producer is parked between the two halves of its push at the FIX8_VERIF yield point of the queue, hook H1), plus seeded free-running runs with 1-8 producer threads and stop() right after the last submit or in mid-flight. TLC validates every recorded execution (submits with return values, stop, file content) against the C28 monitor.',
+    note='Trusts TLC, the probe (moves data, parses log lines), interposition of clock_nanosleep/write/pthread_join/pthread_create, ASan/UBSan. "Submitted before stop" = the submit call had returned when stop() was called. The queue is modelled at the grain C30 establishes: pushes are Reserve;Publish, pops go in ticket order and fail while the head ticket is unpublished.',
     tech='TLA+ design spec + TLC (safety and liveness); transition-cover replay on the real logger threads under controlled scheduling; free-running stress; TLC trace validation',
     ref='5.8, 6 C28')
 
@@ -42,7 +42,18 @@ def run(ctx):
         if not r["ok"]:
             raise core.Infra("ideal logger design violates %s (%s): the model is wrong" % (r["violated"], cfg))
         ctx.add_model(r, "MC_Logger.tla", cfg, inv + ([] if "safety" in cfg else ["StopReturns (liveness)"]))
+    # the queue at the grain of C30: a push is Reserve;Publish and a pop fails while the head ticket is unpublished
+    r = tlc.check("MC_Logger.tla", "MC_Logger_p2_2ph.cfg", workers=8, timeout=3000)
+    if not r["ok"]:
+        raise core.Infra("ideal logger design with two-phase pushes violates %s: the model is wrong" % r["violated"])
+    ctx.add_model(r, "MC_Logger.tla", "MC_Logger_p2_2ph.cfg", inv + ["StopReturns (liveness)"])
+    # leaving on a failed pop after the stop request is invisible on a plain FIFO and breaks C28 on the real queue protocol
+    r = tlc.check("MC_Logger.tla", "MC_Logger_dev_failedpop_1ph.cfg", workers=4, timeout=600)
+    if not r["ok"]:
+        raise core.Infra("MC_Logger_dev_failedpop_1ph.cfg: expected to hold on a plain FIFO, violated %s" % r["violated"])
+    ctx.add_model(r, "MC_Logger.tla", "MC_Logger_dev_failedpop_1ph.cfg", ["exit_on_failed_pop_when_stopping is harmless on a plain FIFO"])
     for cfg, want in (("MC_Logger_dev_exit.cfg", "InvStopComplete"), ("MC_Logger_dev_ret.cfg", "InvRetIffAccepted"),
+                      ("MC_Logger_dev_failedpop.cfg", "InvStopComplete"), ("MC_Logger_reach_2ph.cfg", "Reach_PopFailsWithBacklog"),
                       ("MC_Logger_reach.cfg", "Reach_StopWithBacklog")):
         r = tlc.check("MC_Logger.tla", cfg, workers=4, timeout=600)
         if r["ok"] or r["violated"] != want:
@@ -53,8 +64,9 @@ def run(ctx):
     #    edge), every exported prefix completed by stop() and run on its own.  quick: 2 producers x 2 enabled
     #    lines, and 1 producer x 2 lines at either level.  thorough: 2 producers x 2 lines at either level and
     #    3 producers x 2 enabled lines.
-    covers = [("MC_Logger_cover_en.cfg", 2), ("MC_Logger_cover_lv.cfg", 1)] if ctx.quick else \
-             [("MC_Logger_cover.cfg", 2), ("MC_Logger_cover_en3.cfg", 3)]
+    covers = [("MC_Logger_cover_en.cfg", 2), ("MC_Logger_cover_lv.cfg", 1), ("MC_Logger_cover_2ph.cfg", 2)] if ctx.quick else \
+             [("MC_Logger_cover.cfg", 2), ("MC_Logger_cover_en3.cfg", 3), ("MC_Logger_cover_2ph.cfg", 2)]
+    rng = random.Random(ctx.seed)
     scheds, seen = [], set()
     nedges = 0
     for cfg, np_cover in covers:
@@ -63,6 +75,12 @@ def run(ctx):
             raise core.Infra("cover run violates %s" % r["violated"])
         ctx.add_model(r, "MC_Logger.tla", cfg, inv + ["transition cover export"])
         prefixes = tlc.leaves(r["out"])
+        if "2ph" in cfg:
+            # only the schedules in which a producer sits inside its push (the others are in the plain cover);
+            # quick: a seeded 500 of them
+            prefixes = [h for h in prefixes if any(x["a"] == "R" for x in h)]
+            if ctx.quick and len(prefixes) > 500:
+                prefixes = rng.sample(prefixes, 500)
         if len(prefixes) < 50:
             raise core.Infra("schedule export %s produced only %d schedules" % (cfg, len(prefixes)))
         nedges += len(prefixes)
@@ -73,7 +91,6 @@ def run(ctx):
                 seen.add(key)
                 scheds.append((np_cover, s))
     cmds = [lc.sched_cmd(i, n, s) for i, (n, s) in enumerate(scheds)]
-    rng = random.Random(ctx.seed)
     free = free_runs(rng, 300 if ctx.quick else 3000)
     cmds += [lc.free_cmd(len(scheds) + i, *f[1:]) for i, f in enumerate(free)]
     ctx.exhaustive = True
@@ -93,9 +110,10 @@ def run(ctx):
         ctx.extra["selftest"] = "a corrupted record of a good execution is rejected by the monitor"
     ctx.trusted = ["TLC", "probe_logger (moves data; parses the log lines it reads back)",
                    "symbol interposition of clock_nanosleep / write / pthread_join / pthread_create as park positions",
+                   "hook H1: FIX8_VERIF yield point push.publish (parks a producer inside its push)",
                    "ASan/UBSan for memory errors inside the logger"]
     ctx.assumptions = ["a line counts as submitted before stop iff its send() had returned when stop() was called",
-                       "the inter-thread queue is a linearizable unbounded FIFO (property C30)",
+                       "the inter-thread queue follows the ticket protocol of property C30 (Reserve;Publish, pop in ticket order)",
                        "one stop() per logger (a second stop(), e.g. from the destructor, joins a dead thread id and is outside the statement)"]
 
 
